@@ -462,6 +462,9 @@ def _shipped(cfg):
     finally:
         import shutil
         shutil.rmtree(tmp, ignore_errors=True)
+    import signal
+    signal.signal(signal.SIGINT, signal.SIG_DFL)      # Server.__init__ installed handlers in this worker process
+    signal.signal(signal.SIGTERM, signal.SIG_DFL)
     sec = srv.secnode
     expect = {}
     base_names = ('Drivable', 'Writable', 'Readable', 'Communicator', 'Module')
